@@ -19,6 +19,7 @@ Non-trivial : nefc > 0 with >= 2 constraint kinds (equality / friction loss / li
 import numpy as np
 
 from vf import gen_cons as gc
+from vf import mj
 from vf.oracle import cons
 from vf.runner import Violation
 
@@ -98,8 +99,8 @@ def main(ck):
       d1 = lib.copy_data(m, d0)
       try:
         lib.mj_forward(m, d1)
-      except Exception as e:
-        if 'rank-deficient' in str(e):
+      except mj.MjError as e:
+        if 'rank-deficient' in str(e) and gc.illconditioned_hessian(lib, m, d0):
           ck.discard('illconditioned-hessian')
           return
         raise
@@ -202,7 +203,13 @@ def main(ck):
       elif (solver == NEWTON or rng.randint(2)) and not unconv:
         m.opt.enableflags = base_en | E.mjENBL_FWDINV
         d3 = lib.copy_data(m, d0)
-        lib.mj_step(m, d3)
+        try:
+          lib.mj_step(m, d3)
+        except mj.MjError as e:
+          if 'rank-deficient' in str(e) and gc.illconditioned_hessian(lib, m, d0):
+            ck.discard('illconditioned-hessian')
+            return
+          raise
         m.opt.enableflags = base_en
         # fwdinv statistics recorded inside mj_step obey the bound of the continuous identity
         fwdinv = np.array(d3.solver_fwdinv, dtype=np.float64)
